@@ -334,6 +334,10 @@ func (db *RockDB) BitCountV2(key []byte, start, end int64) (int64, error) {
 		if err != nil {
 			return 0, err
 		}
+		if index > int64(stopI)*bitmapSegBytes {
+			// the segments behind the one that holds end are outside [start, end]
+			break
+		}
 		bmv := it.RefValue()
 		if bmv == nil {
 			continue
@@ -348,6 +352,10 @@ func (db *RockDB) BitCountV2(key []byte, start, end int64) (int64, error) {
 			if byteEnd > len(bmv) {
 				byteEnd = len(bmv)
 			}
+		}
+		if byteStart > byteEnd {
+			// the segment is stored shorter than the first wanted byte: nothing to count in it
+			byteStart = byteEnd
 		}
 		total += popcountBytes(bmv[byteStart:byteEnd])
 	}
